@@ -667,6 +667,10 @@ var c13Histories = []struct {
 		"type Org implements Node { name: String }", true, "id"},
 	{"new-union-member-not-object", "interface Node { id: ID }\ntype A { x: Int }\nunion U = A\ntype Query { u: U }",
 		"extend union U = Node", true, "Node"},
+	{"implied-schema-extended-with-an-input-type-as-root", "type Query { a: Int }\ninput In { x: Int }", "extend schema { mutation: In }", true, "mutation"},
+	{"implied-schema-extended-with-an-unknown-operation", "type Query { a: Int }", "extend schema { zork: Query }", true, "zork"},
+	{"implied-schema-extended-with-a-misplaced-directive", "directive @onenum on ENUM\ntype Query { a: Int }\ntype Mut { set: Int }", "extend schema @onenum { mutation: Mut }", true, "onenum"},
+	{"implied-schema-extended-with-an-object-root", "type Query { a: Int }\ntype Mut { set: Int }", "extend schema { mutation: Mut }", false, ""},
 	{"unrelated-type-after-valid-load", "interface Node { id: ID }\ntype User implements Node { id: ID }\ntype Query { u: User }",
 		"type Extra { x: Int }", false, ""},
 }
